@@ -207,7 +207,18 @@ except Exception:  # noqa: BLE001
 def with_selection(sel: Any, fn: Any) -> Any:
     """Call fn(want_tracks object) and remember whether the callee mutated the caller's
     selection object (a caller may reuse it for the next parse)."""
-    obj = selection(sel)
+    pool = getattr(_tls, "sel_pool", None)
+    if pool is not None and sel is not None and not sel.get("fault"):
+        # the caller keeps ONE selection object per distinct selection and reuses it for every
+        # parse (as a program with a constant WANTED list does)
+        import json as _json
+
+        key = _json.dumps([sel.get("form"), sel["pairs"]])
+        if key not in pool:
+            pool[key] = selection(sel)
+        obj = pool[key]
+    else:
+        obj = selection(sel)
     snap = list(obj) if obj is not None else None
     _tls.sel_mutated = False
     _tls.sel_fault_fired = False
@@ -221,6 +232,11 @@ def with_selection(sel: Any, fn: Any) -> Any:
         if call_obj is not obj:
             _tls.sel_fault_fired = call_obj.fired
         _tls.sel_mutated = obj is not None and list(obj) != snap
+
+
+def use_selection_pool(pool: dict[str, Any] | None) -> None:
+    """Per-thread: selection objects are taken from (and kept in) ``pool`` from now on."""
+    _tls.sel_pool = pool
 
 
 def selection_fault_fired() -> bool:
